@@ -1,8 +1,154 @@
 import CnlDriver.CS
-/-! `C11` driver table (stub). -/
+import CnlModel.Static
+import CnlSpec.Rounding
+/-! `C11` table: static_number operations and short histories. -/
 namespace Cnl.Drv
-open Cnl
+open Cnl Cnl.Static
 
-def checkC11 (_toks : List String) (_res : String) : Option Verdict := none
+def showSN (x : SNum) : String := s!"sn({x.digits},{x.exp}):{x.value}"
+
+def modeOf11 : RdMode → Spec.RoundMode
+  | .nat => .truncate | .nrst => .nearestAway | .tpi => .nearestUp | .ninf => .floor
+
+/-- ideal evaluation: exact integers at known exponents; a signal is `none` with a polarity -/
+inductive Ideal where
+  | val (exp : Int) (v : Int)
+  | signal (pos : Bool)
+  | undef            -- the property does not constrain the input (zero divisor)
+deriving Repr
+
+def idealBin (mode : RdMode) (op : BinOp) (a b : Ideal) : Ideal :=
+  match a, b with
+  | .val ea va, .val eb vb =>
+    match op with
+    | .add | .sub =>
+      let e := min ea eb
+      let x := va * 2^(ea - e).toNat; let y := vb * 2^(eb - e).toNat
+      .val e (if op == .add then x + y else x - y)
+    | .mul => .val (ea + eb) (va * vb)
+    | .div => if vb == 0 then .undef else .val (ea - eb) (Spec.roundDiv (modeOf11 mode) va vb)
+    | _ => .undef
+  | .signal p, _ => .signal p
+  | _, .signal p => .signal p
+  | _, _ => .undef
+
+/-- narrowing assignment to `D` digits at exponent `E` -/
+def idealCvt (mode : RdMode) (tag : OvTag) (D : Nat) (E : Int) (a : Ideal) : Ideal :=
+  match a with
+  | .val e v =>
+    let w : Int := if E ≤ e then v * 2^(e - E).toNat else Spec.roundDiv (modeOf11 mode) v (2^(E - e).toNat)
+    -- the saturated tag's way of signalling is the clamped value, which later operations consume
+    if w > 2^D - 1 then (if tag == .sat then .val E (2^D - 1) else .signal true)
+    else if w < -(2^D - 1 : Int) then (if tag == .sat then .val E (-(2^D - 1 : Int)) else .signal false)
+    else .val E w
+  | o => o
+
+def showIdeal (tag : OvTag) (D : Nat) : Ideal → Option String
+  | .val e v => some s!"sn({D},{e}):{v}"
+  | .signal p =>
+    (match tag with
+     | .sat => none   -- saturation: judged by value below
+     | .thr => some (if p then "THROW+" else "THROW-")
+     | .trp => some (if p then "TRAP+" else "TRAP-")
+     | _ => none)
+  | .undef => none
+
+def parseSN (s : String) : Option (Nat × Int × Int) :=
+  -- sn(D,E):v
+  match s.splitOn ":" with
+  | [t, v] =>
+    match (t.drop 3).toString.dropEnd 1 |>.toString.splitOn "," with
+    | [d, e] => do let d ← d.toNat?; let e ← e.toInt?; let v ← v.toInt?; some (d, e, v)
+    | _ => none
+  | _ => none
+
+/-- the implementation's result agrees with the ideal: same value and exponent (digits are the
+model's business), or the prescribed signal; under saturation the clamped declared limit -/
+def isSignal (res : String) : Bool := res == "TRAP+" || res == "TRAP-" || res == "THROW+" || res == "THROW-"
+
+def judge (tag : OvTag) (ideal : Ideal) (satD : Nat) (res : String) : Option Bool :=
+  match ideal with
+  | .undef => none
+  | .val e v =>
+    -- a trap / exception is never *silently* wrong: under the throwing and trapping tags an
+    -- (even spurious) overflow signal satisfies the property; a value must be the exact one
+    if (tag == .thr || tag == .trp) && isSignal res then some true else
+    match parseSN res with
+    | some (_, e', v') => some (e == e' && v == v')
+    | none => some false
+  | .signal p =>
+    match tag with
+    | .sat =>
+      match parseSN res with
+      | some (_, _, v') => some (v' == (if p then (2^satD - 1 : Int) else -(2^satD - 1 : Int)))
+      | none => some false
+    | .thr => some (res == (if p then "THROW+" else "THROW-"))
+    | .trp => some (res == (if p then "TRAP+" else "TRAP-"))
+    | _ => none
+
+/-- known-defect classes of a narrowing conversion from `d1` digits at `e1` to exponent `e3` -/
+def c11CvtClass (mode : RdMode) (d1 : Nat) (e1 e3 : Int) (a : Int) : String :=
+  if e3 ≤ e1 then "" else
+  let k := (e3 - e1).toNat
+  if k ≥ d1 then "C11.narrowing_drops_all_digits"
+  else
+    let q := Spec.roundDiv (modeOf11 mode) a (2^k)
+    if q.natAbs > 2^(d1 - k) - 1 then "C11.rounded_value_exceeds_intermediate_digits" else ""
+
+def checkC11 (toks : List String) (res : String) : Option Verdict :=
+  match toks with
+  | ["bin", mode, tag, ops, d1, e1, d2, e2, a, b] => do
+    let mode ← parseRdMode mode; let tag ← parseOvTag tag; let op ← parseBinOp ops
+    let d1 ← d1.toNat?; let e1 ← e1.toInt?; let d2 ← d2.toNat?; let e2 ← e2.toInt?; let a ← a.toInt?; let b ← b.toInt?
+    let c : Cfg := ⟨mode, tag⟩
+    let m := binOp c op ⟨d1, e1, a⟩ ⟨d2, e2, b⟩
+    let ideal := idealBin mode op (.val e1 a) (.val e2 b)
+    some { model := showRes showSN m, spec := judge tag ideal 0 res, branch := "bin/" ++ ops ++ "/" ++ toks[1]!, nontrivial := !(op == .div && b == 0) }
+  | ["cmp", _mode, _tag, ops, d1, e1, d2, e2, a, b] => do
+    let op ← parseCmpOp ops
+    let d1 ← d1.toNat?; let e1 ← e1.toInt?; let d2 ← d2.toNat?; let e2 ← e2.toInt?; let a ← a.toInt?; let b ← b.toInt?
+    let m := cmp op ⟨d1, e1, a⟩ ⟨d2, e2, b⟩
+    let e := min e1 e2
+    let x := a * 2^(e1 - e).toNat; let y := b * 2^(e2 - e).toNat
+    let want : Bool := match op with
+      | .lt => decide (x < y) | .le => decide (x ≤ y) | .gt => decide (x > y) | .ge => decide (x ≥ y)
+      | .eq => decide (x = y) | .ne => decide (x ≠ y)
+    some { model := showRes showBool m, spec := some (res == showBool want), branch := "cmp/" ++ ops }
+  | ["neg", _mode, _tag, d1, e1, a] => do
+    let d1 ← d1.toNat?; let e1 ← e1.toInt?; let a ← a.toInt?
+    let m := neg ⟨d1, e1, a⟩
+    some { model := showRes showSN m, spec := some (res == s!"sn({d1},{e1}):{-a}"), branch := "neg" }
+  | ["cvt", mode, tag, d1, e1, d3, e3, a] => do
+    let mode ← parseRdMode mode; let tag ← parseOvTag tag
+    let d1 ← d1.toNat?; let e1 ← e1.toInt?; let d3 ← d3.toNat?; let e3 ← e3.toInt?; let a ← a.toInt?
+    let m := Static.convert ⟨mode, tag⟩ d3 e3 ⟨d1, e1, a⟩
+    let ideal := idealCvt mode tag d3 e3 (.val e1 a)
+    some { model := showRes showSN m, spec := judge tag ideal d3 res, cls := c11CvtClass mode d1 e1 e3 a,
+           branch := "cvt/" ++ toks[1]! ++ (if e3 > e1 then "/round" else "/exact") }
+  | ["chain", mode, tag, kind, d1, e1, d2, e2, d3, e3, a, b] => do
+    let mode ← parseRdMode mode; let tag ← parseOvTag tag
+    let d1 ← d1.toNat?; let e1 ← e1.toInt?; let d2 ← d2.toNat?; let e2 ← e2.toInt?; let d3 ← d3.toNat?; let e3 ← e3.toInt?
+    let a ← a.toInt?; let b ← b.toInt?
+    let c : Cfg := ⟨mode, tag⟩
+    let x : SNum := ⟨d1, e1, a⟩; let y : SNum := ⟨d2, e2, b⟩
+    match kind with
+    | "mul_add" =>
+      -- C c = x; return x * y + c;
+      let m : Res SNum := do
+        let cc ← Static.convert c d3 e3 x
+        let p ← binOp c .mul x y
+        binOp c .add p cc
+      let ideal := idealBin mode .add (idealBin mode .mul (.val e1 a) (.val e2 b)) (idealCvt mode tag d3 e3 (.val e1 a))
+      some { model := showRes showSN m, spec := judge tag ideal d3 res, cls := c11CvtClass mode d1 e1 e3 a, branch := "chain/mul_add", nontrivial := true }
+    | "sub_div_cvt" =>
+      -- C c = (x - y) / y; return c;
+      let m : Res SNum := do
+        let s ← binOp c .sub x y
+        let q ← binOp c .div s y
+        Static.convert c d3 e3 q
+      let ideal := idealCvt mode tag d3 e3 (idealBin mode .div (idealBin mode .sub (.val e1 a) (.val e2 b)) (.val e2 b))
+      some { model := showRes showSN m, spec := judge tag ideal d3 res, branch := "chain/sub_div_cvt", nontrivial := b != 0 }
+    | _ => none
+  | _ => none
 
 end Cnl.Drv
